@@ -257,6 +257,14 @@ class Sim:
                 if x[0] == "sym":
                     toggle(st.hash_sym, ("CAST", x[1]))
                     return
+                # the key of rights computed in a local first: ((rights & m1) & m2 ...) over a read of the rights field
+                mask, y = 0xff, x
+                while y[0] == "bin" and y[1] == "BitAnd" and (y[2][0] == "const" or y[3][0] == "const"):
+                    c_, y = (y[2], y[3]) if y[2][0] == "const" else (y[3], y[2])
+                    mask &= c_[1]
+                if y[0] == "ld" and y[2][0] == "field" and y[2][2] == "castling":
+                    toggle(st.hash_sym, ("CAST", ("crm", y[1], mask & 15)))
+                    return
                 raise SimError("castling key of %s" % show(x))
             if tb == ("named", "owlchess::zobrist::CASTLING_KINGSIDE") and e[2][0] == "const" and self.t.ck is not None:
                 st.hash_num ^= self.t.ck[e[2][1]]
